@@ -5,8 +5,11 @@ import os
 VERIF = os.path.dirname(os.path.dirname(os.path.abspath(__file__)))
 
 LEVEL_NOTE = ("Trusted: Coq 8.16.1 kernel (no axioms: Print Assumptions reports 'Closed under the global context' for every "
-              "property theorem; no native_compute), the gofacts translator, extraction with ExtrOcamlBasic only plus the OCaml "
-              "driver, the Go harness/fakes/comparator. Modelled, not verified: ")
+              "property theorem; no native_compute; thorough tier: coqchk -o and an in-Coq re-evaluation of a case sample), "
+              "the gofacts translator (constants, access/cleanup/guard facts and the decision text of the transcribed "
+              "functions, all regenerated and pinned by theorems on every run), extraction with ExtrOcamlBasic only plus "
+              "the OCaml driver, the Go harness/fakes/comparator. Models are hand transcriptions tied to the code by those "
+              "facts and by the per-run correspondence. Modelled, not verified: ")
 
 CHECKS = {
     "C17": dict(
